@@ -51,7 +51,7 @@ func usesName(src string) bool { return strings.Contains(src, "%P") }
 func runBridge(r *rc) {
 	defer muteStdout()()
 	base := (*otto.Otto)(nil)
-	for _, b := range []string{"struct", "map", "slice", "array"} {
+	for _, b := range []string{"struct", "map", "slice", "array", "nmap"} {
 		for _, op := range bridgeOps {
 			for ni, name := range bridgeNames {
 				if ni > 0 && !usesName(op.Src) {
@@ -106,7 +106,7 @@ func runBridge(r *rc) {
 			}
 		}
 	}
-	r.Bound("bridged_kinds", "4")
+	r.Bound("bridged_kinds", "5")
 	r.Bound("operations", fmt.Sprint(len(bridgeOps)))
 	r.Bound("property_names", fmt.Sprint(len(bridgeNames)))
 }
